@@ -522,7 +522,7 @@ func ruleT7(c *Ctx) *RuleResult {
 		var gate *types.Var
 		for i := 0; i < st.NumFields(); i++ {
 			f := st.Field(i)
-			conds := ifsOn(reader, func(v ssa.Value) bool {
+			conds := ifsOnV(reader, func(v ssa.Value) bool {
 				if lf, _ := loadedField(v); lf == f {
 					return true
 				}
